@@ -386,12 +386,10 @@ def fromPod (E : Env) (path : Str) (u : SUnit) (containersToStart : List Str) : 
 /-! ### remaining handlers -/
 def isInfix (pat x : Str) : Bool := (List.range (x.length + 1)).any fun i => pat.isPrefixOf (x.drop i)
 
-/-- is_url: the literal pattern ^((https?)|(git)://)|(github\.com/).+$ -/
+/-- is_url: the pattern ^((https?|git)://|github\.com/).+$ — one of the four prefixes, then at least one character, none of them a line feed -/
 def isUrl (x : Str) : Bool :=
-  startsWith x (s "http") || startsWith x (s "git://") ||
-  (List.range (x.length + 1)).any fun i =>
-    let suf := x.drop i
-    startsWith suf (s "github.com/") && (let rest := suf.drop 11; !rest.isEmpty && !rest.contains '\n')
+  [s "http://", s "https://", s "git://", s "github.com/"].any fun p =>
+    startsWith x p && (let rest := x.drop p.length; !rest.isEmpty && !rest.contains '\n')
 
 def lower (x : Str) : Str := x.map fun c => if 'A' ≤ c ∧ c ≤ 'Z' then Char.ofNat (c.toNat + 32) else c
 
